@@ -15,6 +15,7 @@ import PyTough.Proofs.ListingRowFormat
 import PyTough.Proofs.ListingFile
 import PyTough.Proofs.ListingWhole
 import PyTough.Proofs.ListingWholeAut
+import PyTough.Proofs.ListingWholeBlock
 import PyTough.Gen.ListingBind
 
 namespace Props.C05
@@ -520,5 +521,82 @@ example : exRdA.tables.lookup "element" = some exTA ∧
     (∀ l ∈ "\n".toList :: ([" ELEMENT INDEX P T X\n".toList, " (PA) (DEG-C)\n".toList] ++ "\n".toList :: ["  \n".toList]),
       slice l 1 6 ≠ keyword5 "element") :=
   ⟨rfl, rfl, by decide, by decide⟩
+
+
+/-! ### all tables of one result block (TOUGH2 family): read_tables_TOUGH2, with some tables skipped
+
+  A block is a list of entries (`Proofs.Whole.TEntry`): a table name, its lines — either a table that is read
+  (`TKind.read t header segs`: the region of `table_read_TOUGH2`) or one that is skipped because the reader holds no
+  table of that name (it is in `skip_tables`, so was never set up, or was absent at the first result time:
+  `TKind.skip R atl`, lines `R` without `@@@@@` in columns 1..5 followed by the `@@@@@` line) — and the lines up to
+  the next table: lines `X` without a `KCYC … ITER` line, that line `kc`, blank lines `Bl`.  `EntryOk`, `LinksOk`,
+  `EndOk` (Proofs/ListingWholeBlock.lean) are the decidable well-formedness conditions: every read region is well
+  formed for its table, every walk finds the `KCYC` line before the next result block and the next header names the
+  next table (not the diffusion block `MASS FLOW RATES …`), and behind the last table comes the end of the file or a
+  `KCYC` line of the next block.  `read_tables_TOUGH2` is `read_header` followed by this loop with fuel
+  `len(remaining lines) + 2` (`Proofs.Whole.readTables_T2`); the theorem holds for any fuel above the number of tables. -/
+
+open Proofs.Whole in
+/-- **Every table of the block holds the values of its own region; skipping some tables changes nothing else.**
+    The loop of `read_tables_TOUGH2` over a well-formed block returns; the file is left behind the block; every table
+    the block reads holds, under the row named by each of ITS OWN data lines, the row-reader values of that line
+    (a later line of the same table naming the same row wins) — whatever tables before it were read or skipped;
+    every table no entry reads (the skipped ones, and tables not printed in this block) keeps its contents; nothing
+    else of the reader changes. -/
+theorem tables_read_block_TOUGH2 (e : TEntry) (more : List TEntry) (Xe : List Str) (tailE : Option (Str × List Str)) (s : Rd)
+    (hrd : bound s.fam "read_table" = "read_table_TOUGH2") (hsk : bound s.fam "skip_table" = "skip_table_TOUGH2")
+    (hnt : bound s.fam "next_table" = "next_table_TOUGH2") (htt : bound s.fam "table_type" = "table_type_TOUGH2")
+    (hplus : (s.fam == .toughplus) = false)
+    (hnodup : ((e :: more).map (·.tn)).Nodup)
+    (hok : ∀ x ∈ e :: more, EntryOk s.skipTables s.tables x)
+    (hlinks : LinksOk s.fulltimes.size s.fullpos s.index s.pos.no (e :: more))
+    (hend : EndOk s.fulltimes.size s.fullpos s.index (endNo s.pos.no (e :: more)) Xe tailE)
+    (hrest : s.pos.rest = blockLines (e :: more) (endLines Xe tailE))
+    (fuel : Nat) (hfuel : more.length < fuel) :
+    ∃ s', (tablesLoop actT2 false false fuel e.tn 0).run s = .ok ((), s') ∧
+      s'.pos = endPos (endNo s.pos.no (e :: more)) Xe tailE ∧
+      (∀ x ∈ e :: more, ∀ t header segs, x.kind = .read t header segs → t.data.size = t.rows.size →
+        ∃ t', s'.tables.lookup x.tn = some t' ∧ t' = { t with data := t'.data } ∧
+          ∀ (j : Nat) d i vals, (segs.map (·.1))[j]? = some d →
+            rowOfLineT t.rows t.keyPos t.cols.length t.numpos d = some (i, vals) →
+            (∀ (j' : Nat) d', j < j' → (segs.map (·.1))[j']? = some d' →
+              ∀ v', rowOfLineT t.rows t.keyPos t.cols.length t.numpos d' ≠ some (i, v')) →
+            t'.data[i]? = some vals.toArray) ∧
+      (∀ m, (∀ x ∈ e :: more, x.tn = m → ∃ R atl, x.kind = .skip R atl) → s'.tables.lookup m = s.tables.lookup m) ∧
+      s' = { s with pos := s'.pos, tables := s'.tables } := by
+  have hrun := tablesLoop_block e more Xe tailE s fuel 0 hfuel hrd hsk hnt htt hplus hnodup hok hlinks hend hrest
+  refine ⟨_, hrun, rfl, ?_, ?_, rfl⟩
+  · intro x hx t header segs hk hdata
+    have hxok := hok x hx
+    unfold EntryOk at hxok
+    rw [hk] at hxok
+    refine ⟨_, foldl_lookup_read (e :: more) s.tables x t header segs hx hk hnodup (by rw [hxok.2.1]; rfl), rfl, ?_⟩
+    intro j d i vals hj hf hlater
+    have hi : i < t.data.size := by
+      obtain ⟨key, _, hli, _, _⟩ := (rowOfLineT_spec _ _ _ _ _ _ _).mp hf
+      rw [hdata]; exact (Proofs.Listing.lastIdx_spec hli).1
+    exact applyRows_line _ _ t.data j d i vals hj hf hi hlater
+  · intro m hm
+    exact foldl_lookup_not_read (e :: more) s.tables m hm
+
+-- the hypotheses are satisfiable: the element table of the example above is read, then a connection table the
+-- reader holds no table for is skipped, then the file ends
+private def exE1 : Proofs.Whole.TEntry :=
+  { tn := "element", kind := .read exT2 exHdr exSegs, X := [" @@@@@@@@@@\n".toList, "\n".toList],
+    kc := "   KCYC =   1  -  ITER =  1\n".toList, Bl := ["\n".toList] }
+private def exE2 : Proofs.Whole.TEntry :=
+  { tn := "connection",
+    kind := .skip [" ELEM1 ELEM2 INDEX FLOH\n".toList, "\n".toList, "  AA 1  BA 1     1 0.10000E+01\n".toList] " @@@@@@@@@@\n".toList }
+private def exRdB : Rd :=
+  let ls := Proofs.Whole.blockLines [exE1, exE2] (Proofs.Whole.endLines ["\n".toList] none)
+  { all := ls, isOutputData := false, pos := ⟨20, ls⟩, fam := .tough2, tables := [("element", exT2)], skipTables := ["connection"] }
+example : bound exRdB.fam "read_table" = "read_table_TOUGH2" ∧ bound exRdB.fam "skip_table" = "skip_table_TOUGH2" ∧
+    bound exRdB.fam "next_table" = "next_table_TOUGH2" ∧ bound exRdB.fam "table_type" = "table_type_TOUGH2" ∧
+    (exRdB.fam == .toughplus) = false ∧ (([exE1, exE2]).map (·.tn)).Nodup := by decide
+example : Proofs.Whole.EntryOk exRdB.skipTables exRdB.tables exE1 ∧ Proofs.Whole.EntryOk exRdB.skipTables exRdB.tables exE2 := by
+  refine ⟨⟨by decide, rfl, by decide, by decide, by decide⟩, ⟨rfl, by decide, by decide⟩⟩
+example : Proofs.Whole.LinksOk exRdB.fulltimes.size exRdB.fullpos exRdB.index exRdB.pos.no [exE1, exE2] ∧
+    Proofs.Whole.EndOk exRdB.fulltimes.size exRdB.fullpos exRdB.index (Proofs.Whole.endNo exRdB.pos.no [exE1, exE2]) ["\n".toList] none := by
+  refine ⟨⟨⟨by decide, by decide, by decide, by decide, by decide, by decide, by decide, by decide, by decide⟩, trivial⟩, by decide, trivial⟩
 
 end Props.C05
